@@ -105,8 +105,20 @@ class VecInterp {
   uint64_t w_req0, w_mal0, w_ev0, w_dreq, w_dmal, w_dev;
   bool w_threw;
   uint32_t heap_blocks_seen;
+  FILE *transcript;
+  int portability;  // C16: 1 = skip ops only C++20 offers, 2 = also skip everything not offered by every configuration
 
-  explicit VecInterp(const char *name) : cfgname(name), relocate_enabled(false), within_n(false) {
+  void dump_state() {
+    if (!transcript) return;
+    for (int i = 0; i < K; ++i) {
+      fprintf(transcript, " c%d(size=%ld cap=%ld)[", i, static_cast<long>(s[i].c->size()), static_cast<long>(s[i].c->capacity()));
+      for (typename V::const_iterator it = s[i].c->begin(); it != s[i].c->end(); ++it) fprintf(transcript, "%d,", val_of(*it));
+      fprintf(transcript, "]");
+    }
+    fprintf(transcript, "\n");
+  }
+
+  explicit VecInterp(const char *name) : cfgname(name), relocate_enabled(false), within_n(false), transcript(0), portability(0) {
     for (int i = 0; i < K; ++i) {
       s[i].c = 0;
       s[i].mem = 0;
@@ -421,6 +433,10 @@ class VecInterp {
       crash_area_op(static_cast<uint32_t>(k));
       step(ops[k]);
       ++ctx().ops;
+      if (transcript && !tainted()) {
+        fprintf(transcript, "op %d %d %d %d %d:", ops[k].code % kVecNumOps, ops[k].a, ops[k].b, ops[k].c, ops[k].d);
+        dump_state();
+      }
     }
     end_case();
     bool failed_now = ctx().failed;
